@@ -832,10 +832,9 @@ class Paths:
 
 
 # R13.7: builder calls that deliberately do not hand the declared default on.  (root function, builder, parameter, argument) -> reason
-HANDOVER_EXCEPTIONS = {
-    ("property_from_data", "FileProperty.build", "default", "None"): "a string of format binary takes no default: None is handed on, a declared default is ignored",
-    ("EnumProperty.build", "NoneProperty.build", "default", "'None'"): "an enum whose only value is null is the constant None, whatever default is declared",
-    ("LiteralEnumProperty.build", "NoneProperty.build", "default", "'None'"): "an enum whose only value is null is the constant None, whatever default is declared",
+HANDOVER_EXCEPTIONS: dict[tuple[str, str, str, str], str] = {
+    # none today: the three sites of /repo that drop a declared default (binary strings, null-only enums) are genuine defects and are
+    # reported (known findings), not excused
 }
 
 
